@@ -186,7 +186,8 @@ class CSSMediaRule(cssrule.CSSRuleRules):
                 def atrule(expected, seq, token, tokenizer):
                     # TODO: get complete rule!
                     tokens = self._tokensupto2(tokenizer, token)
-                    atval = self._tokenvalue(token)
+                    # at-keywords are case-insensitive: "@PAGE", "@MEDIA"
+                    atval = self._tokenvalue(token, normalize=True)
                     factories = {
                         '@page': css_parser.css.CSSPageRule,
                         '@media': CSSMediaRule,
